@@ -297,6 +297,62 @@ def in_process_part(chk, exprs):
             shutil.rmtree(W, ignore_errors=True)
 
 
+def parallel_exception_part(chk):
+    """parallel scheduler (two worker threads), denoise granted, an internal exception in the worker that is joined first while
+    the other one still executes benchmarks: the restore step comes after the LAST benchmark process has ended"""
+    import threading
+    import rebench.executor as rexec
+    n = 3 if chk.tier == "quick" else 20
+    o_cpu = rexec.cpu_count
+    for i in range(n):
+        W = setup_dir(with_sudo=True)
+        try:
+            open(os.path.join(W, "report.txt"), "w").write(REPORTS[0][1])
+            open(os.path.join(W, "report.rc"), "w").write("0")
+            raw = {"default_data_file": os.path.join(W, "p.data"), "executors": {"E": {"path": "/x", "executable": "exe"}},
+                   "benchmark_suites": {"S": {"gauge_adapter": "RebenchLog", "command": "%(benchmark)s %(invocation)s", "execute_exclusively": False,
+                                              "benchmarks": ["P%d" % k for k in range(8)]}},
+                   "experiments": {"X": {"executions": [{"E": {"suites": ["S"]}}]}}, "runs": {"invocations": 1}}
+            cli.write_yaml(os.path.join(W, "c.yaml"), raw)
+            log = os.path.join(W, "events.log")
+            lock = threading.Lock()
+            first = {"done": False}
+
+            def fake_run(args, env, cwd=None, shell=False, kill_tree=True, timeout=-1, verbose=False, stdout=None, stderr=None,
+                         stdin_input=None, keep_alive_output=None, uses_sudo=False):
+                with lock:
+                    open(log, "a").write("START %s\n" % args)
+                    boom = threading.current_thread().name == "BenchmarkThread 0" and not first["done"]
+                    if boom:
+                        first["done"] = True
+                if boom:
+                    raise RuntimeError("injected into the first worker thread")
+                time.sleep(0.08)
+                with lock:
+                    open(log, "a").write("END %s\n" % args)
+                return 0, "B: iterations=1 runtime: 1000us\n", None
+            o_run = swt.run
+            swt.run = fake_run
+            rexec.cpu_count = lambda: 5
+            try:
+                rc, out = run_main(["c.yaml"], W, os.path.join(W, "bin") + ":/usr/bin:/bin")
+            finally:
+                swt.run = o_run
+                rexec.cpu_count = o_cpu
+            time.sleep(0.3)       # a worker that was left running would still write its events
+            events = [l.rstrip("\n") for l in open(log)] if os.path.exists(log) else []
+            restores = [k for k, e in enumerate(events) if e.startswith("SUDO ") and e.rstrip().endswith(" restore")]
+            ends = [k for k, e in enumerate(events) if e.startswith("END ") or e.startswith("START ")]
+            case = dict(scheduler="parallel, two worker threads", end="exception in the worker joined first", rc=rc)
+            if len(restores) != 1 or (ends and restores[0] < max(ends)):
+                chk.violation("C20 the restore step is invoked exactly once, after the last benchmark process has ended (parallel scheduler)", case,
+                              "one restore after the last START/END", [e[:60] for e in events[-8:]])
+            chk.case(("parallel-exception", i))
+        finally:
+            shutil.rmtree(W, ignore_errors=True)
+    chk.count("parallel_sessions_with_an_exception_in_one_worker", n)
+
+
 def shield_part(chk, exprs):
     import rebench.denoise as dn
     ns = list(range(1, 4097))
@@ -549,6 +605,7 @@ def run(chk):
     shield_part(chk, exprs)
     cli_part(chk)
     real_startup_part(chk)
+    parallel_exception_part(chk)
     try:
         res = core.coq_eval(IMPORTS, [e[3] for e in exprs], chk.scratch, chunk=60)
     except core.BuildError as exc:
